@@ -221,3 +221,9 @@ Proof.
   - cbn [exec]. destruct (Hmain None) as [w' [k' [kc [H [Hk Hr]]]]]. rewrite H.
     exists w', k', kc. split; [reflexivity|]. split; [intros _; apply Hk; reflexivity|]. split; [discriminate|]. exact Hr.
 Qed.
+
+(* the rpc handler passes every message of the channel to Send, whatever the stream does *)
+Lemma rpc_forward_drains : forall ms n k, fst (rpc_forward ms n k) = ms.
+Proof. induction ms as [|m rest IH]; intros n k; simpl; [reflexivity|]. rewrite IH. reflexivity. Qed.
+Lemma rpc_forward_healthy : forall ms n, snd (rpc_forward ms n 0) = ms.
+Proof. induction ms as [|m rest IH]; intros n; simpl; [reflexivity|]. rewrite IH. reflexivity. Qed.
